@@ -158,7 +158,7 @@ theorem workspaceUpdate_noop {E : Env K} (hC : CompilerOK E) {S : Src} (hS : Sou
     (h0 : ∀ c0, E.compile .default S = some c0 → A.cfg .default = some c0)
     (hset : ∀ l, (∃ c0, E.compile .default S = some c0 ∧ c0.schemaList = some l) → Settled E S l A)
     (now : Time) :
-    (workspaceUpdate E S now A).1 = { A with lastBuild := now } ∧ NoWrites (workspaceUpdate E S now A).2.2 := by
+    (workspaceUpdate E S now A).1 = { A with lastBuild := castInt now } ∧ NoWrites (workspaceUpdate E S now A).2.2 := by
   obtain ⟨c0, l, hc0, hl, hlist, _⟩ := hS.default
   unfold workspaceUpdate
   simp only [configFileUpdate_noop hC hc0 (h0 c0 hc0), h0 c0 hc0, hl]
